@@ -10,8 +10,12 @@ record which checks report a violation (and whether with a concrete failing inpu
 import json, os, shutil, subprocess, sys
 args = sys.argv[1:]
 sandbox = None
-if args and args[0] == '--sandbox':
-    sandbox = args[1]
+SET = 'seeded'
+while args and args[0] in ('--sandbox', '--set'):
+    if args[0] == '--sandbox':
+        sandbox = args[1]
+    else:
+        SET = args[1]          # `harmless`: behaviour-preserving changes; every check is expected to stay green
     args = args[2:]
 only = args
 VERIF, REPO = '/verif', '/repo'
@@ -27,10 +31,10 @@ if sandbox:
 sys.path.insert(0, f'{VERIF}/checklib')
 from props import PROPS
 try:
-    for sid in sorted(os.listdir('/verif/seeded')):
+    for sid in sorted(os.listdir(f'/verif/{SET}')):
         if only and sid not in only:
             continue
-        d = f'/verif/seeded/{sid}'
+        d = f'/verif/{SET}/{sid}'
         if not os.path.exists(f'{d}/patch.diff'):
             continue
         assert subprocess.run(['git', '-C', REPO, 'status', '--short'], capture_output=True, text=True).stdout.strip() == ''
